@@ -100,6 +100,7 @@ def abs_default(sd):
     if not isinstance(sd, sa.DefaultClause): raise AssertionError("unexpected server default %r" % (sd,))
     if isinstance(sd.arg, str): return ["lit", sd.arg]
     if isinstance(sd.arg, TextClause): return ["expr", sd.arg.text]
+    if isinstance(sd.arg, sa.sql.functions.now): return ["expr", "CURRENT_TIMESTAMP"]     # func.now(): what SQLite's compiler prints
     raise AssertionError("unexpected default argument %r" % (sd.arg,))
 
 
@@ -116,16 +117,20 @@ def build_metadata(schema):
     for t in schema:
         args = []
         collate = (t.get("deco") or {}).get("collate", [])
+        funcnow = (t.get("deco") or {}).get("funcnow", [])       # these CURRENT_TIMESTAMP defaults are spelled func.now()
+        colflag = {u[1][0] for u in t.get("uuqs", []) if len(u) > 2 and u[2] and len(u[1]) == 1}
         for c in t["cols"]:
             n, fam, a, nl, pk, d = c[:6]
             kw = {"nullable": bool(nl)} if col_null_set(c) else {}
+            if n in colflag: kw["unique"] = True
             ty = sa_type(fam, a)
             if n in collate and FAMS[fam] in ("VARCHAR", "TEXT"):      # decoration: a string column with a collation
                 ty = sa.String(*a, collation="NOCASE") if FAMS[fam] == "VARCHAR" else sa.Text(collation="NOCASE")
             if d is not None and d[0] == "comp":
                 args.append(sa.Column(cn(n), ty, sa_default(d), primary_key=bool(pk), **kw))
             else:
-                args.append(sa.Column(cn(n), ty, primary_key=bool(pk), server_default=sa_default(d), **kw))
+                sd = sa.func.now() if (n in funcnow and d is not None and list(d) == ["expr", "CURRENT_TIMESTAMP"]) else sa_default(d)
+                args.append(sa.Column(cn(n), ty, primary_key=bool(pk), server_default=sd, **kw))
         for k in t["cons"]:
             if k[0] == "uq":
                 args.append(sa.UniqueConstraint(*[cn(c) for c in k[2]], name=kn(k[1])))
@@ -139,7 +144,8 @@ def build_metadata(schema):
         for name, kind, c in deco.get("eixs", []):
             expr = sa.func.lower(sa.column(cn(c))) if kind == "func" else sa.text("%s || 'x'" % cn(c))
             args.append(sa.Index("e%d" % name, expr))
-        for u in t.get("uuqs", []):          # unnamed unique constraints: [handle, [cols]]
+        for u in t.get("uuqs", []):          # unnamed unique constraints: [handle, [cols]] (+ True: spelled Column(unique=True))
+            if len(u) > 2 and u[2] and len(u[1]) == 1: continue
             args.append(sa.UniqueConstraint(*[cn(c) for c in u[1]]))
         for f in t.get("fks", []):
             o = fk_opts(f)
@@ -367,13 +373,37 @@ def fresh_db(schema, attached=()):
     return e
 
 
+_ROW_VALUE = {"INTEGER": "1", "BIGINT": "1", "SMALLINT": "1", "VARCHAR": "'a'", "TEXT": "'a'", "NUMERIC": "1", "DECIMAL": "1", "FLOAT": "1",
+              "BOOLEAN": "1", "DATE": "'2020-01-01'", "DATETIME": "'2020-01-01 00:00:00'", "BLOB": "x'00'"}
+
+
+def populate(conn, A, B):
+    """one row in every table of A (every column non-NULL, so every constraint of A and every NOT NULL of B is satisfied) before an
+    upgrade runs: "the upgrade runs" is meant on a database that holds data.  A table to which B adds a NOT NULL column without a
+    usable default stays empty (no upgrade can fill that column; not alembic's business).  Returns the number of rows."""
+    import sqlalchemy as sa
+    tb = {t["name"]: t for t in B}
+    n = 0
+    for t in A:
+        m = tb.get(t["name"])
+        old = {c[0] for c in t["cols"]}
+        if m is not None and any(c[0] not in old and not c[3] and (c[5] is None or list(c[5]) == ["expr", "NULL"]) for c in m["cols"]):
+            continue
+        cols = [c for c in t["cols"] if not (c[5] is not None and c[5][0] == "comp")]
+        conn.execute(sa.text("INSERT INTO %s (%s) VALUES (%s)" % (tn(t["name"]), ", ".join(cn(c[0]) for c in cols),
+                                                              ", ".join(_ROW_VALUE[FAMS[c[1]]] for c in cols))))
+        n += 1
+    conn.commit()
+    return n
+
+
 def run_upgrade(conn, ctx, upgrade_ops, batch):
     """render the upgrade as Python and execute it; returns None or the exception class name"""
     import sqlalchemy as sa
     from alembic.autogenerate import render_python_code
     from alembic.operations import Operations
     from alembic import op as opmod
-    code = render_python_code(upgrade_ops, render_as_batch=batch)
+    code = render_python_code(upgrade_ops, render_as_batch=batch, migration_context=ctx)     # as `alembic revision --autogenerate` does: with the dialect at hand
     src = "def _upgrade():\n" + code + "\n_upgrade()\n"
     try:
         with Operations.context(ctx):
@@ -767,7 +797,8 @@ def gen_mutation(rnd, A, kind, tname=None):
         d = gen_default(rnd)
         return [kind, t["name"], [n, fam, list(args), rnd.random() < 0.7, False, d]]
     if kind == "drop_column":
-        free = [c for c in nonpk if not any(c[0] in k[2] for k in t["cons"]) and not any(c[0] in f[1] for f in t["fks"])
+        free = [c for c in nonpk if not any(c[0] in k[2] for k in t["cons"]) and not any(c[0] in u[1] for u in t.get("uuqs", []))
+                and not any(c[0] in f[1] for f in t["fks"])
                 and not any(f[2] == t["name"] and c[0] in f[3] for o in A for f in o["fks"])]
         if not free: return None
         return [kind, t["name"], rnd.choice(free)[0]]
@@ -934,11 +965,29 @@ def gen_mut_seq(rnd, A, shape):
         nonlocal cur
         if m is None: return False
         if not seq_ok(A, ms + [m]): return False
+        nxt = apply_mutation(cur, m)
+        if uuq_clash(nxt): return False
         ms.append(m)
-        cur = apply_mutation(cur, m)
+        cur = nxt
         return True
 
-    if shape == "same_table":
+    if shape == "drop2_add1":        # one table loses at least two columns and gains at least one
+        t = rnd.choice(A)["name"]
+        for _ in range(rnd.randint(2, 3)):
+            push(gen_mutation(rnd, cur, "drop_column", t))
+        if len(ms) < 2: return None
+        for _ in range(rnd.randint(1, 2)):
+            push(gen_mutation(rnd, cur, "add_column", t))
+        if len(ms) < 3 or ms[-1][0] != "add_column": return None
+        for _ in range(rnd.randint(0, 1)):
+            push(gen_mutation(rnd, cur, rnd.choice(_TABLE_KINDS), t))
+    elif shape == "cons_table":        # 2-4 index / unique-constraint changes (and maybe another change) inside one table
+        t = rnd.choice(A)["name"]
+        for _ in range(rnd.randint(2, 4)):
+            push(gen_mutation(rnd, cur, rnd.choice(["add_cons", "drop_cons", "drop_cons", "change_cons"]), t))
+        if rnd.random() < 0.5:
+            push(gen_mutation(rnd, cur, rnd.choice(_TABLE_KINDS), t))
+    elif shape == "same_table":
         t = rnd.choice(A)["name"]
         if rnd.random() < 0.5:
             if not push(gen_mutation(rnd, cur, "drop_column", t)): return None
@@ -1023,6 +1072,25 @@ def decorate(rnd, S, p=0.5):
                 d["eixs"].append([t["name"] * 10 + j, rnd.choice(["func", "text"]), rnd.choice(cols)])
             if old.get("collate"): d["collate"] = old["collate"]
             t["deco"] = d
+
+
+def add_uuqs(rnd, S_, p=0.8):
+    """give tables ANONYMOUS unique constraints (reflected with name None on SQLite), single-column ones spelled Column(unique=True)
+    half of the time; never over the column set of a named constraint / index"""
+    for t in S_:
+        t.setdefault("uuqs", [])
+        if rnd.random() >= p: continue
+        names = [c[0] for c in t["cols"] if not (c[5] is not None and c[5][0] == "comp")]
+        for _ in range(rnd.choice([1, 1, 2])):
+            cs = sorted(rnd.sample(names, rnd.randint(1, min(2, len(names)))))
+            taken = [frozenset(k[2]) for k in t["cons"]] + [frozenset(u[1]) for u in t["uuqs"]]
+            if frozenset(cs) in taken: continue
+            t["uuqs"].append([900 + len(t["uuqs"]), cs] + ([True] if len(cs) == 1 and rnd.random() < 0.5 else []))
+
+
+def uuq_clash(S_):
+    """a named constraint / index over the column set of an anonymous unique constraint"""
+    return any(frozenset(k[2]) == frozenset(u[1]) for t in S_ for k in t["cons"] for u in t.get("uuqs", []))
 
 
 def add_collations(rnd, schemas, p=0.6):
